@@ -432,6 +432,74 @@ pub fn print_num(n: &RNum, out: &mut String) {
     }
 }
 
+/// alternative spellings of the same document: style 0 = `print`; style 1 = every character of
+/// every string and key as \\uXXXX (lower-case hex, surrogate pairs), `, ` and `: ` separators;
+/// style 2 = short escapes wherever one exists, INCLUDING the optional `\\/`, other control
+/// characters as \\u00XX with upper-case hex, everything else raw
+pub fn print_styled(v: &RVal, style: u8) -> String {
+    fn s_out(s: &str, style: u8, out: &mut String) {
+        match style {
+            1 => {
+                out.push('"');
+                for u in s.encode_utf16() {
+                    out.push_str(&format!("\\u{:04x}", u));
+                }
+                out.push('"');
+            }
+            2 => {
+                out.push('"');
+                for ch in s.chars() {
+                    match ch {
+                        '"' => out.push_str("\\\""),
+                        '\\' => out.push_str("\\\\"),
+                        '/' => out.push_str("\\/"),
+                        '\u{08}' => out.push_str("\\b"),
+                        '\u{0C}' => out.push_str("\\f"),
+                        '\n' => out.push_str("\\n"),
+                        '\r' => out.push_str("\\r"),
+                        '\t' => out.push_str("\\t"),
+                        c if (c as u32) < 0x20 => out.push_str(&format!("\\u{:04X}", c as u32)),
+                        c => out.push(c),
+                    }
+                }
+                out.push('"');
+            }
+            _ => print_str(s, out),
+        }
+    }
+    fn rec(v: &RVal, style: u8, out: &mut String) {
+        match v {
+            RVal::Str(s) => s_out(s, style, out),
+            RVal::Arr(a) => {
+                out.push('[');
+                for (i, x) in a.iter().enumerate() {
+                    if i > 0 {
+                        out.push_str(if style == 1 { ", " } else { "," });
+                    }
+                    rec(x, style, out);
+                }
+                out.push(']');
+            }
+            RVal::Obj(o) => {
+                out.push('{');
+                for (i, (k, x)) in o.iter().enumerate() {
+                    if i > 0 {
+                        out.push_str(if style == 1 { ", " } else { "," });
+                    }
+                    s_out(k, style, out);
+                    out.push_str(if style == 1 { ": " } else { ":" });
+                    rec(x, style, out);
+                }
+                out.push('}');
+            }
+            other => print_into(other, out),
+        }
+    }
+    let mut out = String::new();
+    rec(v, style, &mut out);
+    out
+}
+
 /// compact RFC 8259 rendering (finite numbers only)
 pub fn print(v: &RVal) -> String {
     let mut s = String::new();
